@@ -728,3 +728,338 @@ Proof.
   - cbn [rb_xschema fst snd sb_add_def]. rewrite Hf. rewrite IH by reflexivity.
     unfold rb_set_sd. cbn. rewrite <- app_assoc. reflexivity.
 Qed.
+
+(* ---------------------------------------------------------------- renumbering: canon and to_ast *)
+Lemma rb_rho_inj next disc : inj_on (rb_rho next disc) disc.
+Proof. intros a b Ha Hb H. unfold rb_rho in H. apply (cn_index_inj a b disc Ha Hb). lia. Qed.
+
+Lemma rb_renumber_app a : forall b n,
+  rb_renumber n (a ++ b) =
+  (fst (rb_renumber n a) ++ fst (rb_renumber (snd (rb_renumber n a)) b), snd (rb_renumber (snd (rb_renumber n a)) b)).
+Proof.
+  induction a as [|t a IH]; intros b n; cbn [app rb_renumber].
+  - cbn. destruct (rb_renumber n b); reflexivity.
+  - rewrite IH. destruct (rb_renumber (n + N.of_nat (length (ta_type_extensions t))) a) as [a' n1]. cbn [fst snd].
+    destruct (rb_renumber n1 b) as [b' n2]. reflexivity.
+Qed.
+
+Lemma rb_renumber_canon ts : forall n, map cn_type (fst (rb_renumber n ts)) = map cn_type ts.
+Proof.
+  induction ts as [|t ts IH]; intros n; cbn [rb_renumber]; [reflexivity|].
+  specialize (IH (n + N.of_nat (length (ta_type_extensions t)))). destruct (rb_renumber _ ts) as [r' n'].
+  cbn [fst map] in *. rewrite IH. f_equal. apply cn_type_rn, rb_rho_inj.
+Qed.
+
+Lemma rb_renumber_to_ast ts : forall n,
+  map (fun t => (et_builtin t, ta_type_to_ast t)) (fst (rb_renumber n ts))
+  = map (fun t => (et_builtin t, ta_type_to_ast t)) ts.
+Proof.
+  induction ts as [|t ts IH]; intros n; cbn [rb_renumber]; [reflexivity|].
+  specialize (IH (n + N.of_nat (length (ta_type_extensions t)))). destruct (rb_renumber _ ts) as [r' n'].
+  cbn [fst map] in *. rewrite IH. f_equal. rewrite ta_type_to_ast_rn by apply rb_rho_inj.
+  rewrite (proj1 (proj2 (rn_type_props _ t))). reflexivity.
+Qed.
+
+Lemma rb_renumber_has_object ts x : forall n, sb_has_object (fst (rb_renumber n ts)) x = sb_has_object ts x.
+Proof.
+  unfold sb_has_object. induction ts as [|t ts IH]; intros n; cbn [rb_renumber]; [reflexivity|].
+  specialize (IH (n + N.of_nat (length (ta_type_extensions t)))). destruct (rb_renumber _ ts) as [r' n'].
+  cbn [fst sch_find_type] in *. rewrite (proj1 (rn_type_props _ t)).
+  destruct (streq x (et_name t)); [destruct t; reflexivity|exact IH].
+Qed.
+
+Lemma flat_map_ext_in {A B} (f g : A -> list B) l : (forall x, In x l -> f x = g x) -> flat_map f l = flat_map g l.
+Proof.
+  induction l as [|x l IH]; intros H; cbn; [reflexivity|]. rewrite (H x) by (left; reflexivity).
+  f_equal. apply IH. intros; apply H; right; assumption.
+Qed.
+
+Definition rb_type_docs (t : ext_type) : list definition :=
+  if et_builtin t then tl (ta_type_to_ast t) else ta_type_to_ast t.
+
+Lemma rb_type_docs_map ts ts' :
+  map (fun t => (et_builtin t, ta_type_to_ast t)) ts' = map (fun t => (et_builtin t, ta_type_to_ast t)) ts ->
+  flat_map rb_type_docs ts' = flat_map rb_type_docs ts.
+Proof.
+  revert ts'. induction ts as [|t ts IH]; intros [|t' ts'] H; try discriminate; [reflexivity|].
+  cbn [map flat_map] in *.
+  pose proof (f_equal (fun l => match l with x :: _ => fst x | [] => false end) H) as Hb.
+  pose proof (f_equal (fun l => match l with x :: _ => snd x | [] => [] end) H) as Ha.
+  pose proof (f_equal (@tl _) H) as Ht. cbn [fst snd tl] in Hb, Ha, Ht.
+  unfold rb_type_docs at 1 3. rewrite Hb, Ha. f_equal. apply IH, Ht.
+Qed.
+
+(* ---------------------------------------------------------------- well-formedness of a schema w.r.t. the built-ins *)
+Definition rb_types_wf (T0 T : list ext_type) : Prop :=
+  exists Tb Tu, T = Tb ++ Tu /\
+    Forall2 (fun t t0 => t0 = rb_type_partial (fun i => i) t []) Tb T0 /\
+    Forall (fun t0 => et_builtin t0 = true) T0 /\
+    Forall (fun t => et_builtin t = false) Tu /\
+    NoDup (map et_name T) /\ Forall rb_type_ok T.
+
+Lemma rb_fold_types cfg T0 T st :
+  rb_types_wf T0 T -> sbs_types st = T0 -> sbs_orphans st = [] ->
+  fold_left (sb_add_def cfg) (flat_map rb_type_docs T) st =
+  rb_set_types st (fst (rb_renumber (sbs_next st) T)) (snd (rb_renumber (sbs_next st) T)).
+Proof.
+  intros [Tb [Tu [-> [H2 [Hb0 [Hbu [Hnd Hok]]]]]]] Hst Horph.
+  rewrite flat_map_app, fold_left_app. apply Forall_app in Hok. destruct Hok as [Hokb Hoku].
+  rewrite map_app in Hnd.
+  assert (Hbb : Forall (fun t => et_builtin t = true) Tb).
+  { clear -H2 Hb0. induction H2 as [|t t0 Tb T0 Ht H2 IH]; [constructor|]. inversion Hb0; subst.
+    constructor; [|apply IH; assumption]. rewrite <- (proj2 (proj2 (rb_type_partial_props (fun i => i) t []))). assumption. }
+  rewrite (flat_map_ext_in rb_type_docs (fun t => tl (ta_type_to_ast t)) Tb).
+  2:{ rewrite Forall_forall in Hbb. intros t Ht. unfold rb_type_docs. rewrite (Hbb t Ht). reflexivity. }
+  rewrite (rb_fold_builtin cfg Tb T0 [] st H2 Hokb); [|cbn; apply NoDup_app_l in Hnd; exact Hnd|exact Hst].
+  rewrite (flat_map_ext_in rb_type_docs ta_type_to_ast Tu).
+  2:{ rewrite Forall_forall in Hbu. intros t Ht. unfold rb_type_docs. rewrite (Hbu t Ht). reflexivity. }
+  cbn [app]. rewrite rb_fold_user.
+  - cbn [rb_set_types sbs_types sbs_next]. rewrite rb_set_types_set, rb_renumber_app. reflexivity.
+  - rewrite Forall_forall in *. intros t Ht. split; [apply Hbu, Ht|apply Hoku, Ht].
+  - clear -Hnd. induction Tb as [|t Tb IH]; cbn in *; [exact Hnd|]. inversion Hnd; subst. apply IH; assumption.
+  - cbn [rb_set_types sbs_types]. rewrite rb_renumber_names. intros n Hn Hin.
+    clear -Hnd Hn Hin. induction Tb as [|t Tb IH]; cbn in *; [contradiction|]. inversion Hnd as [|? ? Hx Hnd']; subst.
+    destruct Hin as [<-|Hin]; [apply Hx; apply in_app_iff; right; exact Hn|apply IH; assumption].
+  - exact Horph.
+Qed.
+
+(* ---------------------------------------------------------------- the whole schema *)
+Definition rb_sd_wf (cfg : sb_cfg) (sd : schema_def) (T : list ext_type) : Prop :=
+  sd_dirs sd = rb_regroup (ta_sd_extensions sd) (sd_dirs sd) /\
+  (ta_root_ops sd None = [] ->
+     sd_desc sd = None /\ filter rb_is_def (sd_dirs sd) = [] /\
+     (sb_roots_all_none sd = true -> forall op, sb_has_object T (sb_default_type_name op) = false) /\
+     (sbc_adopt cfg = false -> ta_sd_extensions sd = [])).
+
+Definition rb_wf (cfg : sb_cfg) (b0 s : schema) : Prop :=
+  sch_def b0 = sb_empty_schema_def /\
+  rb_dirdefs_wf (sch_dirdefs b0) (sch_dirdefs s) /\
+  rb_types_wf (sch_types b0) (sch_types s) /\
+  rb_sd_wf cfg (sch_def s) (sch_types s).
+
+Lemma sch_to_ast_eq s :
+  sch_to_ast s = ta_sd_to_ast (sch_def s) (sch_types s)
+                 ++ map ta_dirdef_to_ast (filter rb_nb (sch_dirdefs s)) ++ flat_map rb_type_docs (sch_types s).
+Proof. reflexivity. Qed.
+
+Lemma ta_sd_to_ast_eq sd T :
+  ta_sd_to_ast sd T =
+  (if ta_sd_implicit sd T then []
+   else [DSchema (sd_desc sd) (ta_components None (sd_dirs sd)) (ta_root_ops sd None)])
+  ++ map rb_xschema (map (rb_sx_of sd) (ta_sd_extensions sd)).
+Proof. unfold ta_sd_to_ast. rewrite map_map. reflexivity. Qed.
+
+Lemma ta_sd_to_ast_types_ext sd T T' :
+  (forall n, sb_has_object T' n = sb_has_object T n) -> ta_sd_to_ast sd T' = ta_sd_to_ast sd T.
+Proof.
+  intros H. unfold ta_sd_to_ast, ta_sd_implicit, ta_root_matches_implicit. rewrite !H. reflexivity.
+Qed.
+
+Lemma rb_phases cfg b0 s st1 :
+  rb_dirdefs_wf (sch_dirdefs b0) (sch_dirdefs s) -> rb_types_wf (sch_types b0) (sch_types s) ->
+  sbs_dirdefs st1 = sch_dirdefs b0 -> sbs_types st1 = sch_types b0 -> sbs_orphans st1 = [] ->
+  fold_left (sb_add_def cfg)
+            (map ta_dirdef_to_ast (filter rb_nb (sch_dirdefs s)) ++ flat_map rb_type_docs (sch_types s)) st1 =
+  {| sbs_def := sbs_def st1; sbs_dirdefs := sch_dirdefs s;
+     sbs_types := fst (rb_renumber (sbs_next st1) (sch_types s));
+     sbs_found := sbs_found st1; sbs_orphan_sx := sbs_orphan_sx st1; sbs_orphans := [];
+     sbs_next := snd (rb_renumber (sbs_next st1) (sch_types s)); sbs_errs := sbs_errs st1 |}.
+Proof.
+  intros HD HT Hd Ht Ho. rewrite fold_left_app, (rb_fold_dirdefs cfg _ _ st1 HD Hd).
+  rewrite (rb_fold_types cfg _ _ _ HT); [|exact Ht|exact Ho].
+  unfold rb_set_types, rb_set_dirdefs. cbn. rewrite Ho. reflexivity.
+Qed.
+
+Lemma sb_add_implicit_roots_empty T :
+  fst (sb_add_implicit_roots sb_empty_schema_def T) =
+  {| sd_desc := None; sd_dirs := [];
+     sd_query := if sb_has_object T sb_str_Query then Some (mkcomp ODef sb_str_Query) else None;
+     sd_mutation := if sb_has_object T sb_str_Mutation then Some (mkcomp ODef sb_str_Mutation) else None;
+     sd_subscription := if sb_has_object T sb_str_Subscription then Some (mkcomp ODef sb_str_Subscription) else None |}.
+Proof.
+  unfold sb_add_implicit_roots, sb_empty_schema_def. cbn [fold_left].
+  change sb_str_Query with (sb_default_type_name OpQuery).
+  change sb_str_Mutation with (sb_default_type_name OpMutation).
+  change sb_str_Subscription with (sb_default_type_name OpSubscription).
+  destruct (sb_has_object T (sb_default_type_name OpQuery)); cbn beta iota;
+  destruct (sb_has_object T (sb_default_type_name OpMutation)); cbn beta iota;
+  destruct (sb_has_object T (sb_default_type_name OpSubscription)); reflexivity.
+Qed.
+
+Lemma sb_add_implicit_roots_none sd T :
+  (forall op, sb_has_object T (sb_default_type_name op) = false) -> sb_add_implicit_roots sd T = (sd, false).
+Proof.
+  intros H. unfold sb_add_implicit_roots. cbn [fold_left].
+  rewrite (H OpQuery). cbn beta iota. rewrite (H OpMutation). cbn beta iota. rewrite (H OpSubscription). reflexivity.
+Qed.
+
+Lemma sb_add_implicit_roots_has sd T :
+  snd (sb_add_implicit_roots sd T) = false -> forall op, sb_has_object T (sb_default_type_name op) = false.
+Proof.
+  unfold sb_add_implicit_roots. cbn [fold_left].
+  destruct (sb_has_object T (sb_default_type_name OpQuery)) eqn:E1; cbn beta iota;
+  destruct (sb_has_object T (sb_default_type_name OpMutation)) eqn:E2; cbn beta iota;
+  destruct (sb_has_object T (sb_default_type_name OpSubscription)) eqn:E3; cbn [snd]; try discriminate.
+  intros _ [| |]; assumption.
+Qed.
+
+Lemma rb_root_origin_def sd (c : comp str) :
+  ta_sd_extensions sd = [] -> In (c_origin c) (ta_sd_origins sd) -> c_origin c = ODef.
+Proof.
+  intros He Hin. destruct (c_origin c) as [|j]; [reflexivity|]. apply ta_ext_ids_In in Hin.
+  unfold ta_sd_extensions in He. rewrite He in Hin. contradiction.
+Qed.
+
+(* ---------------------------------------------------------------- re-building the schema from its own to_ast *)
+Lemma sb_build_unfold cfg b0 doc :
+  sb_build cfg b0 doc = sb_build_inner cfg (fold_left (sb_add_def cfg) doc (sb_init b0)).
+Proof. reflexivity. Qed.
+
+Lemma rb_build_inner_found cfg st :
+  sbs_found st = true -> sbs_orphans st = [] ->
+  sb_build_inner cfg st =
+  SbBuilt {| sch_def := sbs_def st; sch_dirdefs := sbs_dirdefs st; sch_types := sbs_types st |} (sbs_errs st).
+Proof.
+  intros Hf Ho. unfold sb_build_inner. rewrite Ho, Hf. destruct (sbc_adopt cfg); cbn; rewrite app_nil_r; reflexivity.
+Qed.
+
+(* explicit schema definition *)
+Lemma rb_rebuild_explicit cfg b0 s :
+  rb_wf cfg b0 s -> ta_sd_implicit (sch_def s) (sch_types s) = false ->
+  exists rho, inj_on rho (ta_sd_extensions (sch_def s)) /\
+  sb_build cfg b0 (sch_to_ast s) =
+  SbBuilt {| sch_def := rn_sd rho (sch_def s); sch_dirdefs := sch_dirdefs s;
+             sch_types := fst (rb_renumber (N.of_nat (length (ta_sd_extensions (sch_def s)))) (sch_types s)) |} [].
+Proof.
+  intros [Hb0 [HD [HT [Hdirs Horph]]]] Himp.
+  set (sd := sch_def s) in *. set (disc := ta_sd_extensions sd).
+  exists (rb_rho 0 disc). split; [apply rb_rho_inj|].
+  rewrite sb_build_unfold, sch_to_ast_eq, ta_sd_to_ast_eq. fold sd. rewrite Himp.
+  rewrite fold_left_app. cbn [app fold_left].
+  (* the schema definition *)
+  unfold sb_init at 1. cbn [sb_add_def sbs_found sbs_next sbs_orphan_sx sbs_errs sbs_def sbs_dirdefs sbs_types sbs_orphans].
+  rewrite (rb_sd_start (rb_rho 0 disc) sd). cbn [sb_extend_schema_def_all app].
+  (* its extensions *)
+  pose proof (rb_sd_all 0 sd disc [] (ta_ext_ids_NoDup _)) as Hall. cbn [app length N.of_nat] in Hall. rewrite N.add_0_r in Hall.
+  fold disc in Hall.
+  erewrite (rb_fold_sx_found cfg); [|reflexivity|cbn [sbs_next sbs_def]; exact Hall].
+  unfold rb_set_sd. cbn [sbs_def sbs_dirdefs sbs_types sbs_found sbs_orphan_sx sbs_orphans sbs_next sbs_errs].
+  unfold disc at 2. rewrite (rb_sd_partial_full _ sd Hdirs).
+  (* directive definitions and types *)
+  rewrite (rb_phases cfg b0 s); try reflexivity; try assumption.
+  rewrite rb_build_inner_found by reflexivity.
+  cbn [sbs_def sbs_dirdefs sbs_types sbs_found sbs_orphan_sx sbs_orphans sbs_next sbs_errs]. rewrite N.add_0_l.
+  reflexivity.
+Qed.
+
+Lemma ta_is_nil_true {A} (l : list A) : ta_is_nil l = true -> l = [].
+Proof. destruct l; [reflexivity|discriminate]. Qed.
+Lemma ta_is_none_true {A} (o : option A) : ta_is_none o = true -> o = None.
+Proof. destruct o; [discriminate|reflexivity]. Qed.
+
+(* implicit schema definition with default-named root types *)
+Lemma rb_rebuild_implicit_roots cfg b0 s :
+  rb_wf cfg b0 s -> ta_sd_implicit (sch_def s) (sch_types s) = true -> ta_root_ops (sch_def s) None <> [] ->
+  sb_build cfg b0 (sch_to_ast s) =
+  SbBuilt {| sch_def := sch_def s; sch_dirdefs := sch_dirdefs s; sch_types := fst (rb_renumber 0 (sch_types s)) |} [].
+Proof.
+  intros [Hb0 [HD [HT [Hdirs Horph]]]] Himp Hroots.
+  set (sd := sch_def s) in *. set (T := sch_types s) in *.
+  pose proof Himp as Himp'. unfold ta_sd_implicit in Himp'.
+  destruct (ta_is_nil (ta_root_ops sd None)) eqn:Enil; [apply ta_is_nil_true in Enil; contradiction|].
+  repeat (apply andb_true_iff in Himp'; destruct Himp' as [Himp' ?]).
+  apply ta_is_none_true in Himp'.
+  match goal with H : ta_is_nil (sd_dirs sd) = true |- _ => apply ta_is_nil_true in H; rename H into Hd end.
+  match goal with H : ta_is_nil (ta_sd_extensions sd) = true |- _ => apply ta_is_nil_true in H; rename H into He end.
+  rewrite sb_build_unfold, sch_to_ast_eq, ta_sd_to_ast_eq. fold sd T. rewrite Himp, He. cbn [map app].
+  rewrite (rb_phases cfg b0 s); try reflexivity; try assumption.
+  set (T' := fst (rb_renumber (sbs_next (sb_init b0)) (sch_types s))).
+  assert (HT' : forall n, sb_has_object T' n = sb_has_object T n) by (intros n; apply rb_renumber_has_object).
+  assert (Hsd : fst (sb_add_implicit_roots sb_empty_schema_def T') = sd).
+  { rewrite sb_add_implicit_roots_empty, !HT'.
+    destruct sd as [d dirs q m su]. cbn [sd_desc sd_dirs sd_query sd_mutation sd_subscription] in *. subst d dirs.
+    unfold ta_root_matches_implicit in *. cbn [sb_default_type_name] in *.
+    assert (Ho : forall c : option (comp str), incl (ta_opt_origin c) (ta_sd_origins {| sd_desc := None; sd_dirs := []; sd_query := q; sd_mutation := m; sd_subscription := su |}) ->
+                 forall dn, ta_opt_streq (option_map c_val c) (if sb_has_object T dn then Some dn else None) = true ->
+                 c = if sb_has_object T dn then Some (mkcomp ODef dn) else None).
+    { intros [c|] Hc dn Hm; cbn in Hm; destruct (sb_has_object T dn); try discriminate; try reflexivity.
+      apply streq_eq in Hm. assert (c_origin c = ODef).
+      { eapply rb_root_origin_def; [exact He|]. apply Hc. cbn. left. reflexivity. }
+      destruct c as [o v]. cbn in *. subst. reflexivity. }
+    f_equal; symmetry; apply Ho; try assumption; unfold ta_sd_origins; cbn [sd_dirs sd_query sd_mutation sd_subscription ta_origins map app];
+      intros o Hin; rewrite ?in_app_iff; auto. }
+  unfold sb_build_inner. cbn [sbs_orphans sbs_types sbs_next sbs_found sbs_errs sbs_def sbs_orphan_sx sbs_dirdefs sb_init].
+  rewrite Hb0. fold T'.
+  destruct (sbc_adopt cfg); cbn [sb_adopt_all sb_all_orphan_errors sb_extend_schema_def_all app].
+  - cbn [sb_roots_all_none sb_empty_schema_def sd_query sd_mutation sd_subscription]. rewrite Hsd. reflexivity.
+  - destruct (sb_add_implicit_roots sb_empty_schema_def T') as [sd1 has] eqn:E. cbn [fst] in Hsd. subst sd1.
+    destruct has; cbn [sb_extend_schema_def_all map app]; reflexivity.
+Qed.
+
+Lemma sb_roots_all_none_rn f sd : sb_roots_all_none (rn_sd f sd) = sb_roots_all_none sd.
+Proof. destruct sd as [d dirs [q|] [m|] [s|]]; reflexivity. Qed.
+
+(* no root operation comes from the definition: only extensions are emitted (adopt_orphan_extensions),
+   or there is nothing at all *)
+Lemma rb_rebuild_orphan cfg b0 s :
+  rb_wf cfg b0 s -> ta_root_ops (sch_def s) None = [] ->
+  exists rho, inj_on rho (ta_sd_extensions (sch_def s)) /\
+  sb_build cfg b0 (sch_to_ast s) =
+  SbBuilt {| sch_def := rn_sd rho (sch_def s); sch_dirdefs := sch_dirdefs s;
+             sch_types := fst (rb_renumber 0 (sch_types s)) |} [].
+Proof.
+  intros [Hb0 [HD [HT [Hdirs Horph]]]] Hroots.
+  set (sd := sch_def s) in *. set (T := sch_types s) in *. set (disc := ta_sd_extensions sd).
+  destruct (Horph Hroots) as [Hdesc [Hnodef [Hnone Hnonadopt]]].
+  assert (Himp : ta_sd_implicit sd T = true) by (unfold ta_sd_implicit; rewrite Hroots; reflexivity).
+  set (n' := snd (rb_renumber 0 T)).
+  exists (rb_rho n' disc). split; [apply rb_rho_inj|].
+  rewrite sb_build_unfold, sch_to_ast_eq, ta_sd_to_ast_eq. fold sd T. rewrite Himp. cbn [app].
+  rewrite fold_left_app. rewrite rb_fold_sx_orphan by reflexivity.
+  rewrite (rb_phases cfg b0 s); try reflexivity; try assumption.
+  unfold rb_set_sd. cbn [sbs_def sbs_dirdefs sbs_types sbs_found sbs_orphan_sx sbs_orphans sbs_next sbs_errs sb_init app].
+  fold T n'. set (T' := fst (rb_renumber 0 T)).
+  assert (HT' : forall n, sb_has_object T' n = sb_has_object T n) by (intros n; apply rb_renumber_has_object).
+  unfold sb_build_inner. cbn [sbs_orphans sbs_types sbs_next sbs_found sbs_errs sbs_def sbs_orphan_sx sbs_dirdefs].
+  rewrite Hb0.
+  pose proof (rb_sd_all n' sd disc [] (ta_ext_ids_NoDup _)) as Hall. cbn [app length N.of_nat] in Hall.
+  rewrite N.add_0_r in Hall. fold disc in Hall.
+  rewrite (rb_sd_start_orphan _ sd Hdesc Hnodef Hroots) in Hall.
+  unfold disc in Hall at 3. rewrite (rb_sd_partial_full _ sd Hdirs) in Hall. fold disc in Hall.
+  destruct (sbc_adopt cfg) eqn:Eadopt; cbn [sb_adopt_all sb_all_orphan_errors app].
+  - fold disc. rewrite Hall. rewrite sb_roots_all_none_rn.
+    destruct (sb_roots_all_none sd) eqn:Enone; [|reflexivity].
+    rewrite sb_add_implicit_roots_none; [reflexivity|]. intros op. rewrite HT'. apply Hnone. reflexivity.
+  - assert (Hdisc : disc = []) by (apply Hnonadopt; reflexivity).
+    fold disc. rewrite Hdisc in *. cbn [map sb_extend_schema_def_all] in *. pose proof (f_equal (fun p => fst (fst p)) Hall) as Hsd. cbn [fst] in Hsd.
+    assert (Hallnone : sb_roots_all_none sd = true).
+    { pose proof (sb_roots_all_none_rn (rb_rho n' []) sd) as Hrn. rewrite <- Hsd in Hrn. symmetry. exact Hrn. }
+    rewrite sb_add_implicit_roots_none by (intros op; rewrite HT'; apply Hnone, Hallnone).
+    cbn [map app]. rewrite <- Hsd. reflexivity.
+Qed.
+
+Lemma rb_final s sd' n :
+  cn_sd sd' = cn_sd (sch_def s) -> (forall X, ta_sd_to_ast sd' X = ta_sd_to_ast (sch_def s) X) ->
+  let s' := {| sch_def := sd'; sch_dirdefs := sch_dirdefs s; sch_types := fst (rb_renumber n (sch_types s)) |} in
+  sch_equiv s' s /\ sch_to_ast s' = sch_to_ast s.
+Proof.
+  intros Hcn Hast s'. split.
+  - unfold sch_equiv, sch_canon, s'. cbn [sch_def sch_dirdefs sch_types]. rewrite Hcn, rb_renumber_canon. reflexivity.
+  - rewrite !sch_to_ast_eq. unfold s'. cbn [sch_def sch_dirdefs sch_types]. rewrite Hast.
+    rewrite (ta_sd_to_ast_types_ext _ (sch_types s) (fst (rb_renumber n (sch_types s)))) by (intros x; apply rb_renumber_has_object).
+    rewrite (rb_type_docs_map (sch_types s) _ (rb_renumber_to_ast (sch_types s) n)). reflexivity.
+Qed.
+
+Theorem rb_rebuild cfg b0 s :
+  rb_wf cfg b0 s ->
+  exists s', sb_build cfg b0 (sch_to_ast s) = SbBuilt s' [] /\ sch_equiv s' s /\ sch_to_ast s' = sch_to_ast s.
+Proof.
+  intros Hwf. destruct (ta_sd_implicit (sch_def s) (sch_types s)) eqn:Himp.
+  - destruct (ta_root_ops (sch_def s) None) as [|r rs] eqn:Hroots.
+    + destruct (rb_rebuild_orphan cfg b0 s Hwf Hroots) as [rho [Hinj Hb]]. eexists. split; [exact Hb|].
+      apply rb_final; [apply cn_sd_rn, Hinj|intros X; apply ta_sd_to_ast_rn, Hinj].
+    + eexists. split; [apply rb_rebuild_implicit_roots; [exact Hwf|exact Himp|rewrite Hroots; discriminate]|].
+      apply rb_final; reflexivity.
+  - destruct (rb_rebuild_explicit cfg b0 s Hwf Himp) as [rho [Hinj Hb]]. eexists. split; [exact Hb|].
+    apply rb_final; [apply cn_sd_rn, Hinj|intros X; apply ta_sd_to_ast_rn, Hinj].
+Qed.
